@@ -197,6 +197,7 @@ class Program:
         self._subs_cache: dict[str, list[ClassInfo]] | None = None
         self.parse_failures: list[str] = []
         self.else_flattened = 0    # redundant `else` after a non-falling-through branch removed (canonical form, see normalize.flatten_else)
+        self.fill_loops_folded = 0   # `A = []; for v in IT: [if C:] A.append(E)` with new locals A, v folded back to a comprehension (normalize.fold_new_fill_loops)
         self.adjacent_temps_inlined = 0  # `T = E; <stmt reading T first and only>` pairs with a new local T folded back (normalize.inline_adjacent_temps)
         self.locals_recovered = 0  # locals renamed back to their reference names (see localnames.py)
         self.helpers_inlined = 0   # private helpers absent from the reference tree inlined at their call sites (see normalize.py)
@@ -224,6 +225,8 @@ class Program:
                     prog.locals_recovered += localnames.recover(tree, rel)
                     prog.helpers_inlined += normalize.inline_new_helpers(tree, rel)
                     prog.helpers_inlined += normalize.inline_new_predicates(tree, rel)
+                    prog.adjacent_temps_inlined += normalize.inline_adjacent_temps(tree, rel)
+                    prog.fill_loops_folded += normalize.fold_new_fill_loops(tree, rel)
                     prog.adjacent_temps_inlined += normalize.inline_adjacent_temps(tree, rel)
                     prog.spellings_restored += normalize.restore_spellings(tree, rel)
                     prog.else_flattened += normalize.flatten_else(tree)
